@@ -445,34 +445,9 @@ use crate::gen;
 use rand::Rng;
 use std::io::Write as _;
 
-/// Offsets of the BeginRequest records that open each session (same rule as track_sessions).
-fn session_begins(w: &Wire) -> Vec<u64> {
-    let (owner, slens) = wire::track_sessions(&w.recs);
-    let _ = owner;
-    let mut begins = Vec::new();
-    let mut cur: Option<u32> = None;
-    for r in &w.recs {
-        if r.ver != 1 { break; }
-        if !(1..=11).contains(&r.ty) || (r.ty == wire::T_GETVALUES && r.id == 0) { continue; }
-        match cur {
-            None => if r.ty == wire::T_BEGIN {
-                if r.clen != 8 { break; }
-                if !(1..=3).contains(&r.role) { continue; }
-                if r.id == 0 { break; }
-                cur = Some(r.id); begins.push(r.off);
-            },
-            Some(id) => {
-                if (r.ty == wire::T_PARAMS && r.id == id && r.clen == 0) || (r.ty == wire::T_ABORT && r.id == id) { cur = None; }
-            },
-        }
-    }
-    debug_assert_eq!(begins.len(), slens.len());
-    begins
-}
-
 /// Params stream bytes of session k, as far as the wire carries them.
-fn session_stream(w: &Wire, bytes: &[u8], k: usize) -> Vec<u8> {
-    let (owner, _) = wire::track_sessions(&w.recs);
+fn session_stream(w: &Wire, bytes: &[u8], k: usize, phases: &[u64]) -> Vec<u8> {
+    let (owner, _, _) = wire::track_sessions(&w.recs, phases);
     let mut s = Vec::new();
     for (i, r) in w.recs.iter().enumerate() {
         if let Some((kk, _)) = owner[i] {
@@ -488,11 +463,11 @@ fn session_stream(w: &Wire, bytes: &[u8], k: usize) -> Vec<u8> {
 
 /// The observables of a finished request for the trace: per key of the
 /// session the candidate pair indices whose value equals what the code returns.
-fn env_event(w: &Wire, bytes: &[u8], req: &Request, pos: u64) -> Result<(Value, usize), String> {
-    let begins = session_begins(w);
+pub fn env_event(w: &Wire, bytes: &[u8], req: &Request, pos: u64, phases: &[u64]) -> Result<(Value, usize), String> {
+    let (_, _, begins) = wire::track_sessions(&w.recs, phases);
     let k = begins.iter().rposition(|&b| b < pos).ok_or("finished request without a session in the lexer's view")?;
     let pairs = &w.pairs[k];
-    let stream = session_stream(w, bytes, k);
+    let stream = session_stream(w, bytes, k, phases);
     let mut keys: Vec<u32> = Vec::new();
     let mut out = Vec::new();
     for p in pairs {
@@ -526,7 +501,7 @@ enum Chunking { One, Random, Fill, Mixed }
 fn trace_one(out: &mut impl std::io::Write, bytes: &[u8], b: usize, ch: Chunking, r: &mut rand::rngs::StdRng, keys: &mut wire::KeyTable)
     -> Result<(u64, String), String> {
     let w = wire::lex(bytes, keys);
-    writeln!(out, "{}", json!({"e": "reset", "B": b, "wire": w})).map_err(|e| e.to_string())?;
+    writeln!(out, "{}", json!({"e": "reset", "B": b, "nd": MAX_CONNS.to_string().len(), "wire": w})).map_err(|e| e.to_string())?;
     let mut config = Config::with_conns(MAX_CONNS.try_into().expect("nz"));
     config.buffer_size = b;
     let mut parser = request::Parser::new(&config);
@@ -558,7 +533,7 @@ fn trace_one(out: &mut impl std::io::Write, bytes: &[u8], b: usize, ch: Chunking
                 Ok((req, left)) => {
                     let pos = fed - left.len();
                     if bytes[pos..fed] != left[..] { return Err(format!("leftover input differs from wire[{pos}..{fed}]")); }
-                    let (env, envlen) = env_event(&w, bytes, &req, pos as u64)?;
+                    let (env, envlen) = env_event(&w, bytes, &req, pos as u64, &[0])?;
                     ev["conv"] = json!("ok");
                     ev["req"] = json!({"id": req.request_id.get(), "role": u16::from(req.role), "flags": req.flags.bits()});
                     ev["env"] = env;
